@@ -2,6 +2,7 @@ SPECIFICATION Spec
 CONSTANTS
   Families = {"A1", "B", "C0", "E", "K"}
 INVARIANT CacheInDatainfo
+INVARIANT ConstantsHold
 PROPERTY DriverOnlyIfAllowed
 PROPERTY ErrorLeavesNoTrace
 PROPERTY ValidIsServed
